@@ -319,6 +319,16 @@ let do_serve t =
   match serve ascii_eqfold true (build regs) m with
   | Run h -> "RUN " ^ string_of_int (int_of_nat h)
   | Refuse resp -> "REFUSE " ^ out_parsed 0 (parse_response prim_reject (response_bytes resp))
+let out_action = function
+  | Run h -> "RUN " ^ string_of_int (int_of_nat h)
+  | Refuse resp -> "REFUSE " ^ out_parsed 0 (parse_response prim_reject (response_bytes resp))
+(* registrations and served requests in any order on one mux *)
+let do_serveseq t =
+  let evs = next_list t (fun t -> match next t with
+      | "reg" -> EvReg (next_reg t)
+      | "req" -> EvServe (msg_of_request (next_request t))
+      | k -> failwith ("bad event " ^ k)) in
+  String.concat " ; " (List.map out_action (run_events ascii_eqfold true mux_empty evs))
 let do_muxreg t =
   let regs = next_list t next_reg in
   let m = build regs in
@@ -494,6 +504,7 @@ let dispatch kind t =
   | "behera" -> do_behera t
   | "resp" -> do_resp t
   | "serve" -> do_serve t
+  | "serveseq" -> do_serveseq t
   | "muxreg" -> do_muxreg t
   | "dir" -> do_dir t
   | "life" -> do_life t
